@@ -828,6 +828,33 @@ void ml_families(vh::rng_t& rng)
                     o0.mu     = 0.0;
                     o0.family = "ml:linear(" + id + ")";
                     check_object(rng, o0, g_thorough ? 60 : 20);
+
+                    // the same objective restricted to the WEIGHTS (bias fixed): l2/2 * mean(W^2) is regularised with exactly the declared
+                    // coefficient l2 / (isize * tsize), so the strong-convexity inequality must hold for pairs that differ in W only --
+                    // unlike pairs that move the unregularised bias (known finding, family ml:linear(<loss>,l2))
+                    const auto nw = static_cast<size_t>(d.isize * d.tsize);
+                    vec        bias(static_cast<size_t>(d.tsize));
+                    for (auto& v : bias) v = std::round((4.0 * rng.unit() - 2.0) * 8.0) / 8.0;
+                    obj_t oW  = o;
+                    oW.n      = static_cast<int>(nw);
+                    oW.family = "ml:linear-W(" + id + ",l2)";
+                    oW.name   = "ml:linear-W(weights only, bias fixed at [" + fl(bias) + "]; parameters = [W row-major (tsize x isize), bias]; " + o.name + ")";
+                    oW.center.clear();
+                    const auto full = o.eval;
+                    oW.eval = [full, bias, nw](const vec& w, vec* g)
+                    {
+                        vec x(w);
+                        x.insert(x.end(), bias.begin(), bias.end());
+                        if (g)
+                        {
+                            vec gx(x.size());
+                            const auto fx = full(x, &gx);
+                            g->assign(gx.begin(), gx.begin() + static_cast<std::ptrdiff_t>(nw));
+                            return fx;
+                        }
+                        return full(x, nullptr);
+                    };
+                    check_object(rng, oW, g_thorough ? 60 : 20);
                 }
             }
             // gradient boosting: bias, scale and per-sample gradients
@@ -919,6 +946,34 @@ void probes()
             const auto rhs = fx + g.dot(z - x) + 0.5 * mu * (z - x).squaredNorm();
             out(std::string("PROBE linear-strong-convexity | loss=") + id + " l2=1 inputs=[0],[1],[2] targets=[8],[9],[10] x=(W=0,b=0) z=(W=0,b=" +
                 vh::hexf(z(1)) + ") | mu=" + vh::hexf(mu) + " f(x)=" + vh::hexf(fx) + " g=[" + vh::hexf(g(0)) + "," + vh::hexf(g(1)) + "] f(z)=" + vh::hexf(fz) +
+                " f(x)+g.(z-x)+mu/2|z-x|^2=" + vh::hexf(rhs) + " | " + ((fz >= rhs - 1e-12) ? "holds" : "violated"));
+        }
+    }
+    // (1b) the declared coefficient l2 / (isize * tsize) IS the true one along the weights: two targets, loss affine between x and z
+    //      (all residuals keep their sign), so f(z) - f(x) - g.(z-x) = l2/2 * mean((W_z - W_x)^2) = mu/2 |z-x|^2 exactly
+    {
+        std::vector<vec> inputs{{0.0}, {1.0}, {2.0}}, targets{{8.0, 8.0}, {9.0, 9.0}, {10.0, 10.0}};
+        mem_datasource_t source(3, 1, 2, inputs, targets);
+        source.load();
+        dataset_t dataset(source, 1U);
+        dataset.add<scalar_identity_generator_t>();
+        dataset.add<struct_identity_generator_t>();
+        auto it = flatten_iterator_t{dataset, arange(0, 3)};
+        it.scaling(scaling_type::none);
+        const auto loss = loss_t::all().get("mae");
+        const auto f    = linear::function_t{it, *loss, 0.0, 2.0};
+        vector_t   x(4), z(4), g(4);
+        x.full(0.0);
+        z.full(0.0);
+        for (int k = 0; k < 2; ++k)
+        {
+            z.full(0.0);
+            z(k) = 0.5; // one weight moves, the bias (last two parameters) does not
+            const auto fx = f.vgrad(x, g), fz = f.vgrad(z);
+            const auto mu = f.strong_convexity();
+            const auto rhs = fx + g.dot(z - x) + 0.5 * mu * (z - x).squaredNorm();
+            out(std::string("PROBE linear-weights-strong-convexity | loss=mae l1=0 l2=2 isize=1 tsize=2 inputs=[0],[1],[2] targets=[8,8],[9,9],[10,10] x=(W=0,b=0) z=(W[") +
+                std::to_string(k) + "]=0.5,b=0) | mu=" + vh::hexf(mu) + " f(x)=" + vh::hexf(fx) + " g=[" + fl(tovec(g)) + "] f(z)=" + vh::hexf(fz) +
                 " f(x)+g.(z-x)+mu/2|z-x|^2=" + vh::hexf(rhs) + " | " + ((fz >= rhs - 1e-12) ? "holds" : "violated"));
         }
     }
